@@ -92,7 +92,8 @@ def drop_immediately(prog, ex, P, tier):
 
 
 CAUSES = ["stop", "kill", "drop", "on_start_err", "on_start_panic", "on_run_err", "on_run_panic", "handler_panic",
-          "stop+on_stop_err", "stop+on_stop_panic", "on_run_err+on_stop_err", "kill+on_stop_err", "on_start_slow+kill", "on_start_slow+stop"]
+          "stop+on_stop_err", "stop+on_stop_panic", "on_run_err+on_stop_err", "kill+on_stop_err", "on_start_slow+kill", "slow_on_stop:stop+kill",
+          "on_start_slow+stop"]
 
 
 def script_for(cause, hy):
@@ -111,6 +112,8 @@ def script_for(cause, hy):
         sc.on_run = [("true", 1), ("panic", 0)]
     if cause == "handler_panic":
         sc.handler_panics = {2}
+    if cause.startswith("slow_on_stop"):
+        sc.on_stop = ("ok", 1)
     if cause.endswith("on_stop_err"):
         sc.on_stop = ("err", 0)
     if cause.endswith("on_stop_panic"):
@@ -128,7 +131,7 @@ def endings(prog, ex, P, tier):
     s.spawn_actor(script_for(cause, hy), cap)
     s.client("c1", [("ask", "A", 1)], ["A"])
     s.client("c2", [("ask", "A", 2)], ["A"])
-    if cause.startswith("stop") or cause.endswith("+stop"):
+    if cause.startswith("stop") or cause.endswith("+stop") or "stop+" in cause:
         s.client("cs", [("stop", "A")], ["A"])
     if cause.startswith("kill") or cause.endswith("+kill"):
         s.client("ck", [("kill", "A")], ["A"])
@@ -245,7 +248,9 @@ def timeouts(prog, ex, P, tier):
     ticks = [2 if tier == "quick" else 3]
 
     def can_tick():
-        return ticks[0] > 0 and len(w.timeouts) > 0 and any(t.state == "running" and t.name == "client:c1" for t in w.tasks)
+        # time may pass at any moment once the timed operation has been started
+        started = any(e["ev"] == "op_start" and e["client"] == "c1" for e in ex.events)
+        return ticks[0] > 0 and started and any(t.state == "running" and t.name == "client:c1" for t in w.tasks)
 
     def tick():
         ticks[0] -= 1
@@ -272,6 +277,17 @@ def mon_c10(tr, d):
             continue
         start_now = tr.ev[o["start"]].get("now_raw", 0)
         deadline = start_now + d
+        # never late: every poll of the client after which the operation is still pending must have
+        # happened strictly before the deadline (for all values of d and the clock increments)
+        end = o["done"] if o["done"] is not None else len(tr.ev)
+        polls = [i for i in range(o["start"], end) if tr.ev[i]["ev"] == "sched" and tr.ev[i]["task"] == "client:" + o["client"]]
+        completing = max([i for i in polls if o["done"] is not None and i < o["done"]], default=None)
+        for i in polls:
+            if i == completing:
+                continue
+            nowp = tr.ev[i].get("now_raw", 0)
+            ex.check("C10", z3.ULT(nowp if not isinstance(nowp, int) else z3.BitVecVal(nowp, 64), deadline),
+                     "the operation was polled at or after its deadline and stayed pending (returns late)")
         if o["done"] is not None:
             now = tr.ev[o["done"]].get("now_raw", 0)
             rc = M.rcode(o["result"])
@@ -330,3 +346,202 @@ def failing_alone(prog, ex, P, tier):
     ex.check("C12", tr.actor_task("B").state == "finished" and tr.actor_task("B").result.variant == "Completed", "B did not complete normally: %s" % tr.w.describe(tr.actor_task("B").result))
     ids = [tr.w.describe(tr.w.actors[a]["id"]) for a in ("A", "B")]
     ex.check("C12", ids[0] != ids[1], "two actors share id %s" % ids[0])
+
+
+# ---- type-erased handles (C16) -----------------------------------------------------------
+def erased(prog, ex, P, tier):
+    """the `senders` / `timeouts` style runs with every operation routed through a symbolically
+    chosen erased wrapper; the same monitors must hold, the timer must receive the caller's
+    duration, stop/kill must keep their meaning, temporaries must not leak references"""
+    v = pick(ex, [
+        dict(cap=1, cause="drop", ops=[("tell", "A", 1), ("ask", "A", 2)]),
+        dict(cap=2, cause="stop", ops=[("tell", "A", 1), ("ask", "A", 2)]),
+        dict(cap=1, cause="kill", ops=[("tell", "A", 1), ("tell", "A", 2)]),
+        dict(cap=1, cause="drop", ops=[("tell_t", "A", 1, 5), ("ask_t", "A", 2, 7)]),
+    ], "variant")
+    s = Sim(prog, ex)
+    s.spawn_actor(Script("A"), v["cap"])
+    c1 = s.client("c1", v["ops"], ["A"])
+    for i in range(len(v["ops"])):
+        c1.routes[i] = pick(ex, list(c1.ROUTES), "route%d" % i)
+    if v["cause"] in ("stop", "kill"):
+        c3 = s.client("c3", [(v["cause"], "A"), ("is_alive", "A")], ["A"])
+        c3.routes[0] = pick(ex, ["direct", "from_ref", "clone_boxed"], "ctl-route")
+    s.drop_main("A")
+    s.run(80)
+    tr = finish(ex, s)
+    for mon in (M.mon_c01, M.mon_c02, M.mon_c03, M.mon_c04, M.mon_c13):
+        try:
+            mon(tr)
+        except Violation as e:
+            raise Violation("C16", "through erased handles (%s): %s: %s" % ([c1.routes.get(i) for i in range(len(v["ops"]))], e.prop, e.msg), e.detail)
+    M.mon_c07(tr, "A", expect_alive=False)
+    if v["cause"] == "kill":
+        M.mon_c06(tr)
+    if v["cause"] == "stop":
+        t = tr.actor_task("A")
+        ex.check("C16", t.state == "finished" and t.result.variant == "Completed" and t.result.fields[1] is False, "stop() through an erased control handle did not stop gracefully: %s" % tr.w.describe(t.result))
+    # the duration handed to the timer is the caller's
+    exp = [op[3] for op in v["ops"] if op[0].endswith("_t")]
+    got = [d for d in tr.w.timeouts]
+    ex.check("C16", got == exp[:len(got)], "timer durations %s, caller passed %s" % (got, exp))
+    # identity through the handle is the actor's
+    a = tr.w.actors["A"]
+
+
+def erased_lifetime(prog, ex, P, tier):
+    """strong trait objects keep the actor alive exactly like an ActorRef; weak ones never do"""
+    tr_name = pick(ex, ["TellHandler", "AskHandler", "ActorControl"], "trait")
+    weak = pick(ex, [False, True], "weak")
+    s = Sim(prog, ex)
+    s.spawn_actor(Script("A"), 2)
+    ops = [("tell", "A", 1), ("into_boxed", "A", tr_name)]
+    if weak:
+        ops.append(("boxed_downgrade", "A", tr_name))
+    if tr_name == "TellHandler" and not weak:
+        ops += [("yield",), ("boxed_tell", "A", 2)]
+    s.client("c1", ops, ["A"], keep_refs=True)
+    s.drop_main("A")
+    s.run(60)
+    t = finish(ex, s)
+    M.mon_c07(t, "A", expect_alive=not weak)
+    M.mon_c01(t)
+    if tr_name == "TellHandler" and not weak:
+        hd = [e["msg"] for _, e in t.handled("A")]
+        ex.check("C16", hd == [1, 2], "messages through a kept Box<dyn TellHandler> were handled as %s" % hd)
+
+
+# ---- identity / is_alive / upgrade (C11) -----------------------------------------------------
+def identity(prog, ex, P, tier):
+    cause = pick(ex, ["stop", "kill", "drop", "on_run_err", "handler_panic"], "cause")
+    s = Sim(prog, ex)
+    w = s.w
+    sc = script_for(cause, 0)
+    s.spawn_actor(sc, 2)
+    sb = Script("B")
+    s.spawn_actor(sb, 1)
+    s.spawn_actor(Script("C"), 1)
+    ids = [w.describe(w.actors[a]["id"]) for a in ("A", "B", "C")]
+    ex.check("C11", len(set(ids)) == 3, "actors share an id: %s" % ids)
+    sampler = s.client("sm", [("identities", "A"), ("downgrade", "A"), ("is_alive", "A"), ("tell", "A", 1), ("yield",), ("is_alive", "A"), ("weak_is_alive", "A"),
+                              ("drop", "A"), ("yield",), ("weak_is_alive", "A"), ("upgrade", "A"), ("tell", "A", 3)], ["A"])
+    if cause == "stop":
+        s.client("cs", [("stop", "A")], ["A"])
+    elif cause == "kill":
+        s.client("ck", [("kill", "A")], ["A"])
+    else:
+        s.client("c2", [("tell", "A", 2)], ["A"])
+    for a in ("A", "B", "C"):
+        s.drop_main(a)
+    s.run(90)
+    tr = finish(ex, s)
+    a = w.actors["A"]
+    t = a["task"]
+    # 1. one identity through every handle
+    for o in tr.ops().values():
+        if o["op"][0] == "identities" and o["done"] is not None:
+            res = sampler.results[0]
+            exp = (w.describe(a["id"]),)
+            for k, idv in enumerate(res.fields):
+                ex.check("C11", w.describe(idv.fields[0]) == exp[0], "handle #%d reports id %s, the actor's id is %s" % (k, w.describe(idv.fields[0]), exp[0]))
+                ex.check("C11", w.describe(idv.fields[1]) == w.describe(res.fields[0].fields[1]), "handle #%d reports another type name" % k)
+    # 2. is_alive / upgrade tell the truth
+    trig = tr.first(lambda e: (e["ev"] == "accepted" and e.get("chan") in ("term:A",) ) or (e["ev"] == "accepted" and e.get("chan") == "mailbox:A" and e.get("what") == "stop")
+                    or (e["ev"] == "hook_exit" and e.get("actor") == "A" and e.get("hook") == "on_run" and "Err" in str(e.get("out"))) or (e["ev"] == "task_panicked" and e.get("task") == t.name)
+                    or (e["ev"] == "panic"))
+    last_strong_gone = None
+    end = tr.first(lambda e: e["ev"] in ("task_finished", "task_panicked") and e.get("task") == t.name)
+    for o in tr.ops().values():
+        if o["done"] is None:
+            continue
+        k = o["op"][0]
+        if k == "is_alive":
+            if trig is None or o["done"] < trig:
+                # nothing has begun to end the actor, and the sampler itself holds a strong reference
+                ex.check("C11", o["result"] is True, "is_alive() = false on a running actor")
+            if end is not None and o["start"] > end:
+                ex.check("C11", o["result"] is False, "is_alive() = true after the actor's JoinHandle resolved")
+        if k in ("upgrade", "weak_is_alive"):
+            sc_ev = [e for e in tr.ev[o["start"]:o["done"] + 1] if e["ev"] == "strong_count"]
+            if sc_ev:
+                strong = sc_ev[0]["mailbox"] > 0 and sc_ev[0]["term"] > 0
+                ex.check("C11", o["result"] is strong, "%s returned %s while strong references exist = %s" % (k, o["result"], strong))
+        if k == "tell" and o["op"][2] == 3:
+            up = [x for x in tr.ops().values() if x["op"][0] == "upgrade"]
+            if str(o["result"]).startswith("skipped"):
+                continue
+            # a send through an upgraded reference behaves like any other: Ok while the actor lives, error after
+            if end is not None and o["start"] > end:
+                ex.check("C11", M.rcode(o["result"]) != "ok", "send after the actor ended succeeded")
+    M.mon_c01(tr)
+    M.mon_c07(tr, "A")
+
+
+def id_alloc(prog, ex, P, tier):
+    """identity allocation under concurrent spawning: the atomic operations that one real
+    `spawn_with_mailbox_capacity` performs on the id counter are recorded symbolically (results
+    are fresh z3 variables), then two threads performing that operation list are interleaved in
+    every possible way over a symbolic initial counter value; z3 must refute id1 == id2."""
+    import itertools
+    s = Sim(prog, ex)
+    w = s.w
+    log = []
+    orig = {k: w.builtins[k] for k in ("Atomic::fetch_add", "Atomic::load", "Atomic::store", "Atomic::fetch_sub", "Atomic::fetch_max", "Atomic::fetch_update") if k in w.builtins}
+    from .builtins_std import deref
+
+    def is_idctr(it, a):
+        r = a[0]
+        return isinstance(r, Ref) and "ACTOR_IDS" in (r.cell.tag or "")
+
+    def wrap(kind):
+        def f(w_, it, a, c):
+            if not is_idctr(it, a):
+                return orig["Atomic::" + kind](w_, it, a, c)
+            rv = z3.BitVec("r%d" % len(log), 64)
+            operand = a[1].z() if len(a) > 1 and isinstance(a[1], IntV) else None
+            log.append((kind, operand, rv))
+            if kind == "store":
+                return UNIT
+            return IntV(rv, 64)
+        return f
+    for kind in ("fetch_add", "load", "store", "fetch_sub"):
+        w.builtins["Atomic::" + kind] = wrap(kind)
+    a = s.spawn_actor(Script("A"), 1)
+    idv = a["id"]
+    ex.check("C11", isinstance(idv, IntV), "id is not an integer")
+    ex.check("C11", len(log) >= 1, "spawn performs no atomic operation on the id counter")
+    idexpr = idv.z()
+    n = len(log)
+    ex.check("C11", n <= 4, "more than 4 atomic operations per spawn (outside the bound of this obligation)")
+    x0 = z3.BitVec("x0", 64)
+    k_threads = 2
+    # every merge of the two threads' operation lists
+    for order in set(itertools.permutations([0] * n + [1] * n)):
+        x = x0
+        pos = [0, 0]
+        subst = [[], []]
+        for th in order:
+            kind, operand, rv = log[pos[th]]
+            pos[th] += 1
+            fresh = z3.BitVec("t%d_%s" % (th, rv), 64)
+            opnd = z3.substitute(operand, *subst[th]) if operand is not None and subst[th] else operand
+            if kind == "load":
+                val = x
+            elif kind == "store":
+                val = x
+                x = opnd
+            elif kind == "fetch_add":
+                val = x
+                x = x + opnd
+            elif kind == "fetch_sub":
+                val = x
+                x = x - opnd
+            subst[th].append((rv, val))
+        id1 = z3.substitute(idexpr, *subst[0]) if subst[0] else idexpr
+        id2 = z3.substitute(idexpr, *subst[1]) if subst[1] else idexpr
+        # ids wrap only after 2^64 spawns: exclude the wrap-around start values
+        ex.check("C11", z3.Implies(z3.ULT(x0, z3.BitVecVal(2 ** 63, 64)), id1 != id2),
+                 "two concurrent spawns can obtain the same id under interleaving %s of their atomic operations %s" % (order, [k for k, _o, _r in log]))
+    ex.event(ev="id_alloc", atomic_ops=[k for k, _o, _r in log], interleavings=len(set(itertools.permutations([0] * n + [1] * n))))
+    ex.steps = s.it.steps
+    ex.sim = s
